@@ -13,9 +13,11 @@ import (
 	"flag"
 	"io"
 	"math/rand"
+	"net"
 	"net/http/httptest"
 	"runtime"
 	"strconv"
+	"strings"
 	"sync"
 	"sync/atomic"
 	"time"
@@ -57,10 +59,89 @@ func store() (*metrics.Store, []*metrics.Metric) {
 	return s, ms
 }
 
+// pushStall is ExportLocks.tla's write fault on the REAL network path: PushMetrics to a collector that accepts the
+// connection and then never reads, with more data than the socket buffers hold.  The push must give up at
+// -metric_push_write_deadline (a failed write, the model's `wfail`), leave every metric unlocked and let a line
+// processing update through.
+func pushStall() {
+	l, err := net.Listen("tcp", "127.0.0.1:0")
+	if err != nil {
+		vh.Fatal("listen: %v", err)
+	}
+	defer l.Close()
+	var conns []net.Conn
+	var cmu sync.Mutex
+	go func() {
+		for {
+			c, err := l.Accept()
+			if err != nil {
+				return
+			}
+			cmu.Lock()
+			conns = append(conns, c) // accepted, never read
+			cmu.Unlock()
+		}
+	}()
+	_ = flag.Set("graphite_host_port", l.Addr().String())
+	_ = flag.Set("metric_push_write_deadline", "1s")
+	s := metrics.NewStore()
+	m := metrics.NewMetric("big", "p1", metrics.Counter, metrics.Int, "k")
+	pad := strings.Repeat("x", 200)
+	for i := 0; i < 60000; i++ { // ~15 MB of graphite lines: far beyond the loopback socket buffers
+		d, _ := m.GetDatum(pad + strconv.Itoa(i))
+		datum.SetInt(d, int64(i), time.Now())
+	}
+	_ = s.Add(m)
+	ctx, cancel := context.WithCancel(context.Background())
+	defer cancel()
+	e, err := exporter.New(ctx, s, exporter.Hostname("h"))
+	if err != nil {
+		vh.Fatal("exporter.New: %v", err)
+	}
+	res := map[string]any{"pushstall": true, "write_deadline_ms": 1000}
+	t0 := time.Now()
+	fin := make(chan struct{})
+	go func() { defer close(fin); e.PushMetrics() }()
+	select {
+	case <-fin:
+		res["returned"] = true
+	case <-time.After(20 * time.Second):
+		res["returned"] = false
+	}
+	res["push_ms"] = time.Since(t0).Milliseconds()
+	if m.TryLock() {
+		m.Unlock()
+		res["locked"] = false
+	} else {
+		res["locked"] = true
+	}
+	upd := make(chan struct{})
+	go func() { defer close(upd); _, _ = m.GetDatum("later") }()
+	select {
+	case <-upd:
+		res["update"] = "ok"
+	case <-time.After(10 * time.Second):
+		res["update"] = "stalled"
+	}
+	cmu.Lock()
+	res["accepted"] = len(conns)
+	for _, c := range conns {
+		_ = c.Close()
+	}
+	cmu.Unlock()
+	vh.Out(res)
+	vh.Flush()
+}
+
 func main() {
 	rounds := flag.Int("rounds", 300, "exports per exporter kind")
 	deadline := flag.Duration("deadline", 10*time.Second, "an export or update taking longer is a stall")
+	stall := flag.Bool("pushstall", false, "run the stalled-collector scenario instead")
 	flag.Parse()
+	if *stall {
+		pushStall()
+		return
+	}
 	rnd := rand.New(rand.NewSource(vh.Seed()))
 	s, ms := store()
 	ctx, cancel := context.WithCancel(context.Background())
